@@ -24,6 +24,7 @@ def check(impl, scn):
             if op.endswith(".read_loop"):
                 rl[tk[3]] = dict(sock=op.split(".")[0], got=0, started=False, ended=False)
     quiescent = False; stopped = False; conn = {}; crashed = False
+    pw = {}          # plain writes: handler -> dict(sock, stream, len, n=None)
     for ln in impl:
         tk = ln.split()
         if not tk: continue
@@ -38,6 +39,8 @@ def check(impl, scn):
                 if m in ("close", "destroy", "cancel", "close0"): closed.add(o)
                 if m == "write_loop" and op[1] in wl: wl[op[1]]["started"] = True
                 if m == "read_loop" and op[1] in rl: rl[op[1]]["started"] = True
+                if m == "write" and len(op) > 1:
+                    d = _kv(op[2:]); pw[op[1]] = dict(sock=o, stream=d.get("stream"), len=int(d.get("len", 0)), n=None)
                 if m == "connect": conn[op[2]] = None
                 if m in ("accept", "accept_ep"): conn[op[2]] = None
         if tk[0] == "H":
@@ -49,6 +52,7 @@ def check(impl, scn):
                 rl[h]["got"] += int(d.get("n", 0))
                 if d.get("ec") != "ok": rl[h]["ended"] = True
             if h in conn: conn[h] = d.get("ec")
+            if h in pw: pw[h]["n"] = int(d.get("n", 0)) if d.get("ec") == "ok" else -1
         if tk[0] == "R" and " n=" in ln:
             quiescent = not stopped
     if crashed or not quiescent: return fails
@@ -60,6 +64,19 @@ def check(impl, scn):
         if not w["started"]: continue
         if w["got"] < w["total"] and not w["done"]:
             fails.append(("writer_not_stranded", "write loop %s on %s stalled: %d of %d bytes accepted and the simulation went quiescent" % (h, w["sock"], w["got"], w["total"])))
+    # explicit writes: none may be left pending, and what they accepted must have been delivered
+    acc_by_sock = {}
+    for h, w in pw.items():
+        if w["n"] is None:
+            fails.append(("writer_not_stranded", "write %s on %s (%d bytes) never completed and the simulation went quiescent" % (h, w["sock"], w["len"])))
+        elif w["n"] > 0:
+            acc_by_sock[w["sock"]] = acc_by_sock.get(w["sock"], 0) + w["n"]
+    for sock, total in acc_by_sock.items():
+        peer_readers = [r for r in rl.values() if r["sock"] != sock and r["started"]]
+        if len(peer_readers) == 1 and not wl:
+            r = peer_readers[0]
+            if not r["ended"] and r["got"] < total:
+                fails.append(("delivered_eventually", "%d bytes accepted by writes on %s, only %d delivered to the reader that keeps reading, simulation quiescent" % (total, sock, r["got"])))
     # each stream is read by the peer's read loop: delivered == accepted
     socks = {}
     for h, w in wl.items(): socks.setdefault(w["sock"], {})["w"] = w
